@@ -49,9 +49,11 @@ def run(chk):
     from ..canon import dissolve_pure_temps
 
     bfs, bfsd = dissolve_pure_temps(bfs), dissolve_pure_temps(bfsd)  # `next_dist = dist + 1` is not a structural difference
+    decided = []
     for f, with_dist in ((bfs, False), (bfsd, True)):
-        chk.call(bfs_rules, chk, f, with_dist)
-    chk.call(r4_siblings, chk, bfs, bfsd)
+        chk.call(batch_marking, chk, f)
+        decided.append(chk.call(bfs_rules, chk, f, with_dist) is not chk.REFUSED)
+    chk.call(r4_siblings, chk, bfs, bfsd, all(decided))
     chk.call(r5_matcher, chk, conn)
     chk.call(r6_adjacency, chk, conn)
     chk.call(r7_ring, chk, conn)
@@ -62,6 +64,29 @@ def _queue_name(f):
         if isinstance(s, ast.Assign) and isinstance(s.value, ast.Call) and (call_name(s.value) or "").split(".")[-1] == "deque":
             return norm(s.targets[0])
     raise AnalysisError(f"{f.key}: deque not found")
+
+
+def batch_marking(chk, f):
+    """check-then-act over a batch: candidates are tested against `visited` inside a list comprehension (or a loop that only collects)
+    and marked afterwards in one go.  Two candidates of the batch that are the same atom (an atom with two neighbours in the shell
+    that is being expanded - any even-membered ring) both pass the test: the atom is yielded twice, and so is everything behind it."""
+    vis = [norm(s.targets[0]) for s in walk_no_nested(f.node) if isinstance(s, ast.Assign) and isinstance(s.value, (ast.Set, ast.Call)) and norm(s.targets[0]) in ("visited", "seen")]
+    if not vis:
+        return
+    v = vis[0]
+    for comp in [c for c in walk_no_nested(f.node) if isinstance(c, (ast.ListComp, ast.GeneratorExp))]:
+        tests = [t for g in comp.generators for t in g.ifs if isinstance(t, ast.Compare) and len(t.ops) == 1 and isinstance(t.ops[0], ast.NotIn) and norm(t.comparators[0]) == v]
+        if not tests:
+            continue
+        # the collected batch is a list (duplicates survive) and nothing marks inside the comprehension
+        marks_inside = any(isinstance(c, ast.Call) and norm(c.func) in (f"{v}.add",) for c in ast.walk(comp))
+        holder = [s for s in walk_no_nested(f.node) if isinstance(s, ast.Assign) and s.value is comp]
+        dedup = [s for s in walk_no_nested(f.node) if isinstance(s, ast.Assign) and isinstance(s.value, ast.Call) and any(x is comp for x in ast.walk(s.value))
+                 and (call_name(s.value) or "") in ("set", "dict.fromkeys", "frozenset")]
+        if isinstance(comp, ast.ListComp) and holder and not marks_inside and not dedup:
+            chk.fail("C15.R2", f"{f.key}:visit-once", f.where(comp),
+                     f"`{short(tests[0], 40)}` is evaluated for a whole batch inside a list comprehension and the batch is marked only afterwards: an atom that is a neighbour of two "
+                     "atoms of the batch's parents (every even-membered ring closes this way) passes the test twice, is yielded twice, and so is everything reached through it")
 
 
 def bfs_rules(chk, f, with_dist):
@@ -105,19 +130,67 @@ def bfs_rules(chk, f, with_dist):
     chk.decide(len(vis) == 1 and start in ("{start}", "set([start])", "set((start,))"), "C15.R2", f"{f.key}:start-visited", f.where(vis[0] if vis else None), "visited = {start}",
                f"visited is initialised as `{start}`: the start atom can be yielded / re-entered")
     # direction seed
-    dirb = [g for g in f.node.body if isinstance(g, ast.If) and "_direction is None" in norm(g.test)]
-    chk.require(len(dirb) == 1 and dirb[0].orelse, f"{f.key}: direction branch not found")
-    ob = [norm(s) for s in dirb[0].orelse]
+    dpar = f.params()[2] if len(f.params()) > 2 else "_direction"
+    extra = []   # statements that run only when a direction was given, outside the seeding `if`
+
+    def none_test(t, before):
+        """classify a test: 'none' (designator is None), 'given' (is not None), 'falsy' / 'truthy' (truth value of the designator), None"""
+        neg = False
+        while isinstance(t, ast.UnaryOp) and isinstance(t.op, ast.Not):
+            t, neg = t.operand, not neg
+        flip = {"none": "given", "given": "none", "falsy": "truthy", "truthy": "falsy", None: None}
+        if isinstance(t, ast.Compare) and len(t.ops) == 1 and isinstance(t.ops[0], (ast.Is, ast.IsNot, ast.Eq, ast.NotEq)) and norm(t.comparators[0]) == "None" and isinstance(t.left, ast.Name):
+            res = "none" if isinstance(t.ops[0], (ast.Is, ast.Eq)) else "given"
+            nm = t.left.id
+            if nm != dpar:
+                # a local that is None exactly on one arm of an earlier `if`
+                src = [g for g in before if isinstance(g, ast.If) and any(isinstance(x, ast.Assign) and norm(x.targets[0]) == nm for x in g.body + g.orelse)]
+                if len(src) != 1:
+                    return None
+                g = src[0]
+                none_in_body = any(isinstance(x, ast.Assign) and norm(x.targets[0]) == nm and norm(x.value) == "None" for x in g.body)
+                none_in_else = any(isinstance(x, ast.Assign) and norm(x.targets[0]) == nm and norm(x.value) == "None" for x in g.orelse)
+                if none_in_body == none_in_else:
+                    return None
+                inner = none_test(g.test, before[: before.index(g)])
+                if inner is None:
+                    return None
+                extra.extend(g.orelse if none_in_body else g.body)
+                base = inner if none_in_body else flip[inner]          # condition under which nm is None
+                # `nm is None` <=> base ; but 'falsy' stays falsy (the arm is chosen by truth value)
+                res = base if res == "none" else flip[base]
+            return flip[res] if neg else res
+        if isinstance(t, ast.Name) and t.id == dpar:
+            return "falsy" if neg else "truthy"
+        return None
+
+    cands = []
+    for i_, g in enumerate(f.node.body):
+        if isinstance(g, ast.If) and g.orelse and any(norm(x).startswith(f"{q}.append") for x in g.body + g.orelse):
+            extra.clear()
+            cls_ = none_test(g.test, f.node.body[:i_])
+            if cls_ is not None:
+                cands.append((g, cls_, list(extra)))
+    chk.require(len(cands) == 1, f"{f.key}: direction branch not found")
+    dirb0, dcls, extra = cands[0]
+    if dcls in ("falsy", "truthy"):
+        chk.fail("C15.R2", f"{f.key}:no-direction-means-None", f.where(dirb0), f"whether a direction was given is decided by the truth value of `{dpar}`: the atom index 0 (and an empty label) "
+                 "is a legal designator and is silently taken as 'no direction' - the walk covers the whole component instead of the side behind atom 0")
+    else:
+        chk.ok("C15.R2", f"{f.key}:no-direction-means-None", f.where(dirb0), f"a direction is absent exactly when `{dpar} is None`")
+    none_arm, given_arm = (dirb0.body, dirb0.orelse) if dcls in ("none", "falsy") else (dirb0.orelse, dirb0.body)
+    dirb = [type("Arms", (), dict(orelse=extra + given_arm, body=none_arm))()]
+    ob = [norm(s) for s in dirb[0].orelse if not (isinstance(s, ast.Assign) and norm(s.targets[0]) == "direction")]
     nb = [norm(s) for s in dirb[0].body]
     seed_d = "(direction, 1)" if with_dist else "direction"
     seed_s = "(start, 0)" if with_dist else "start"
     okd = "visited.add(direction)" in ob and ob.count(f"{q}.append({seed_d})") + ob.count(f"{q}.appendleft({seed_d})") == 1 and ob.count(f"yield {seed_d}") == 1
     oks = nb in ([f"{q}.append({seed_s})"], [f"{q}.appendleft({seed_s})"])
-    chk.decide(okd and oks, "C15.R2" if not with_dist else "C15.R3", f"{f.key}:seeds", f.where(dirb[0]),
+    chk.decide(okd and oks, "C15.R2" if not with_dist else "C15.R3", f"{f.key}:seeds", f.where(dirb0),
                f"seed {seed_s} without direction; direction marked visited, enqueued once and yielded once as {seed_d}",
                f"seeding is {nb} / {ob}: the start or the direction atom is not handled exactly once" + (" or carries the wrong distance" if with_dist else ""))
     asserts = [s for s in dirb[0].orelse if isinstance(s, ast.Assert)]
-    chk.decide(len(asserts) == 1 and "connected_atoms(start)" in norm(asserts[0].test), "C15.R2", f"{f.key}:direction-is-a-neighbour", f.where(dirb[0]),
+    chk.decide(len(asserts) == 1 and "connected_atoms(start)" in norm(asserts[0].test), "C15.R2", f"{f.key}:direction-is-a-neighbour", f.where(dirb0),
                "direction must be a neighbour of start", "the direction atom is not required to be a neighbour of the start")
     if with_dist:
         # popped distance + 1 both ways
@@ -132,7 +205,7 @@ def bfs_rules(chk, f, with_dist):
                    "the yielded and the enqueued distance are not both the popped distance + 1: reported distances are not shortest-path lengths")
 
 
-def r4_siblings(chk, bfs, bfsd):
+def r4_siblings(chk, bfs, bfsd, both_decided=True):
     class Strip(ast.NodeTransformer):
         """erase the distance component: (x, d) -> x ; `a, dist = q.pop()` -> `a = q.pop()`"""
         def visit_Tuple(self, n):
@@ -151,8 +224,15 @@ def r4_siblings(chk, bfs, bfsd):
         return ast.dump(ast.Module(body=t.body, type_ignores=[]), annotate_fields=False)
 
     a, b = skel(bfs), skel(bfsd)
-    chk.decide(a == b, "C15.R4", f"{bfs.key}:same-skeleton-as-yield_bfsd", bfs.where(), "yield_bfs == yield_bfsd with the distance erased",
-               "yield_bfs and yield_bfsd no longer traverse the same way (they differ beyond the distance component): one of the two was changed alone")
+    key = f"{bfs.key}:same-skeleton-as-yield_bfsd"
+    if a == b:
+        chk.ok("C15.R4", key, bfs.where(), "yield_bfs == yield_bfsd with the distance erased")
+    elif both_decided:
+        # a cross-check, not a law: two different spellings that each pass the traversal rules are both breadth-first walks
+        chk.ok("C15.R4", key, bfs.where(), "the two walks are spelled differently; each satisfies the traversal rules (R1-R3) on its own")
+    else:
+        raise AnalysisError("yield_bfs and yield_bfsd are spelled differently and one of them has a shape the traversal rules do not know: "
+                            "the agreement of the two walks cannot be decided")
 
 
 def _indexed_by_pattern(gs):
